@@ -248,7 +248,7 @@ def short_circuit(chk, facts):
                 chk.ob(rule, "tpe.%s:instances" % node, n >= 2 and nf >= 1, "tpe %s arm: %d guarded evaluations of later operands, %d of the first" % (node, n, nf),
                        where=h.where(), fn=h.name)
                 total += n
-    chk.floor(rule, "guarded operand evaluations", total, 16)
+    chk.floor(rule, "guarded operand evaluations", total, 15)
 
 
 def set_tables(chk, facts):
